@@ -89,8 +89,54 @@ func (e *blockEnv) val(v ssa.Value) mlin {
 		}
 	case *ssa.Extract:
 		return msym(t.Name())
+	case *ssa.Call:
+		if b, ok := t.Call.Value.(*ssa.Builtin); ok && b.Name() == "len" && len(t.Call.Args) == 1 {
+			if f, ok := fieldLoad(t.Call.Args[0]); ok {
+				return msym("len(" + f + ")")
+			}
+		}
 	}
 	return mlin{}
+}
+
+// pathFact is a linear fact d REL 0 known on a path (REL one of < <= == >= >).
+type pathFact struct {
+	d   mlin
+	rel string
+}
+
+// factOf: what taking (or not taking) the branch on cond tells.
+func (e *blockEnv) factOf(cond ssa.Value, taken bool) (pathFact, bool) {
+	bo, ok := cond.(*ssa.BinOp)
+	if !ok {
+		return pathFact{}, false
+	}
+	x, y := e.val(bo.X), e.val(bo.Y)
+	if !x.ok || !y.ok {
+		return pathFact{}, false
+	}
+	d := x.add(y, -1)
+	rel := map[token.Token][2]string{token.LSS: {"<", ">="}, token.LEQ: {"<=", ">"}, token.GTR: {">", "<="}, token.GEQ: {">=", "<"}, token.EQL: {"==", "!="}, token.NEQ: {"!=", "=="}}[bo.Op]
+	if rel[0] == "" {
+		return pathFact{}, false
+	}
+	if taken {
+		return pathFact{d, rel[0]}, true
+	}
+	return pathFact{d, rel[1]}, true
+}
+
+// impliesNonPositive: the facts include t <= 0 (as t<0, t<=0, t==0, or the mirrored statement about -t).
+func impliesNonPositive(facts []pathFact, t mlin) bool {
+	for _, f := range facts {
+		if f.d.eq(t) && (f.rel == "<" || f.rel == "<=" || f.rel == "==") {
+			return true
+		}
+		if f.d.eq(mconst(0).add(t, -1)) && (f.rel == ">" || f.rel == ">=" || f.rel == "==") {
+			return true
+		}
+	}
+	return false
 }
 
 // step interprets one instruction; loads read the current field value.
@@ -169,8 +215,8 @@ func C11fill(p *load.Program, run *report.Run) {
 	}
 	// fill-compaction: every path from the entry to the loop header
 	paths := 0
-	var walk func(b *ssa.BasicBlock, env *blockEnv, cond []string, copies []string)
-	walk = func(b *ssa.BasicBlock, env *blockEnv, cond []string, copies []string) {
+	var walk func(b *ssa.BasicBlock, env *blockEnv, cond []string, copies []string, facts []pathFact)
+	walk = func(b *ssa.BasicBlock, env *blockEnv, cond []string, copies []string, facts []pathFact) {
 		if b == header {
 			paths++
 			s2, e2 := env.fields["ReadStart"], env.fields["ReadEnd"]
@@ -190,15 +236,17 @@ func C11fill(p *load.Program, run *report.Run) {
 			case len(copies) == 0:
 				// window dropped or kept in place
 				want := msym("e").add(msym("s"), -1)
-				empty := false
-				for _, c := range cond {
-					if c == "!(s<e)" || c == "s>=e" || c == "s==e" {
-						empty = true
-					}
-				}
+				empty := impliesNonPositive(facts, msym("e").add(msym("s"), -1))
 				switch {
 				case length.eq(want) && s2.eq(msym("s")):
-					run.OK("fill-compaction", pk, p.Rel(fn.Pos()), "window kept in place")
+					// kept in place: sound only if the request still fits behind ReadStart — the path must carry
+					// the test ReadStart+n <= len(ReadBuf) (in any spelling)
+					fits := impliesNonPositive(facts, msym("s").add(msym(fn.Params[1].Name()), 1).add(msym("len(ReadBuf)"), -1))
+					if !fits {
+						run.Violate("fill-compaction", pk, p.Rel(fn.Pos()), "the unread window is kept in place on a path that does not establish ReadStart+n <= len(ReadBuf): when the request does not fit behind ReadStart the loop reads into an empty slice forever", nil)
+						break
+					}
+					run.OK("fill-compaction", pk, p.Rel(fn.Pos()), "window kept in place, the request fits behind it")
 				case length.eq(mconst(0)) && empty:
 					run.OK("fill-compaction", pk, p.Rel(fn.Pos()), "empty window reset")
 				default:
@@ -241,15 +289,19 @@ func C11fill(p *load.Program, run *report.Run) {
 				if i == 1 {
 					cc = "!(" + c + ")"
 				}
-				walk(s, ne, append(append([]string{}, cond...), cc), append([]string{}, copies...))
+				nf := append([]pathFact{}, facts...)
+				if f, ok := env.factOf(iff.Cond, i == 0); ok {
+					nf = append(nf, f)
+				}
+				walk(s, ne, append(append([]string{}, cond...), cc), append([]string{}, copies...), nf)
 			}
 			return
 		}
 		for _, s := range b.Succs {
-			walk(s, env, cond, copies)
+			walk(s, env, cond, copies, facts)
 		}
 	}
-	walk(fn.Blocks[0], &blockEnv{fields: map[string]mlin{"ReadStart": msym("s"), "ReadEnd": msym("e")}, vals: map[ssa.Value]mlin{}}, nil, nil)
+	walk(fn.Blocks[0], &blockEnv{fields: map[string]mlin{"ReadStart": msym("s"), "ReadEnd": msym("e")}, vals: map[ssa.Value]mlin{}}, nil, nil, nil)
 	run.Count("compaction-paths", paths)
 	run.Floor("compaction-paths", 2)
 	// fill-append
